@@ -34,7 +34,21 @@ func init() {
 		"internal/race.Acquire", "internal/race.Release", "internal/race.ReleaseMerge", "internal/race.Disable", "internal/race.Enable",
 		"internal/race.Read", "internal/race.Write", "internal/race.ReadRange", "internal/race.WriteRange",
 		"(*sync.Once).doSlow_unused", "runtime.LockOSThread", "runtime.UnlockOSThread", "os.Exit_unused",
-		"(*sync.noCopy).Lock", "(*sync.noCopy).Unlock")
+		"(*sync.noCopy).Lock", "(*sync.noCopy).Unlock",
+		"(*internal/sync.Mutex).Lock", "(*internal/sync.Mutex).Unlock", "(*internal/sync.Mutex).lockSlow", "(*internal/sync.Mutex).unlockSlow")
+	reg(func(it *Interp, fn *ssa.Function, args []Value, site ssa.Instruction) Value { return true }, "(*internal/sync.Mutex).TryLock")
+	// ---- sync.Map modelled with the executor's own map ----
+	reg(func(it *Interp, fn *ssa.Function, args []Value, site ssa.Instruction) Value {
+		return it.syncMapOp(fn.Name(), args, site)
+	}, "(*sync.Map).Load", "(*sync.Map).Store", "(*sync.Map).LoadOrStore", "(*sync.Map).LoadAndDelete", "(*sync.Map).Delete",
+		"(*sync.Map).Range", "(*sync.Map).Swap", "(*sync.Map).CompareAndSwap", "(*sync.Map).CompareAndDelete", "(*sync.Map).Clear")
+	// ---- logging ----
+	reg(func(it *Interp, fn *ssa.Function, args []Value, site ssa.Instruction) Value {
+		rt := fn.Signature.Results().At(0).Type()
+		p := new(Value)
+		*p = it.zero(rt.Underlying().(*types.Pointer).Elem())
+		return p
+	}, "github.com/openGemini/openGemini/lib/logger.NewLogger", "github.com/openGemini/openGemini/lib/logger.GetLogger", "go.uber.org/zap.NewNop")
 	reg(func(it *Interp, fn *ssa.Function, args []Value, site ssa.Instruction) Value { return true },
 		"(*sync.Mutex).TryLock", "(*sync.RWMutex).TryLock", "(*sync.RWMutex).TryRLock")
 	reg(func(it *Interp, fn *ssa.Function, args []Value, site ssa.Instruction) Value {
@@ -578,6 +592,87 @@ func (it *Interp) indexSub(ab *ByteBuf, ao, an int, bb *ByteBuf, bo, bn int) Val
 		}
 	}
 	return ^uint64(0)
+}
+
+var nopPrefixes = []string{
+	"(*github.com/openGemini/openGemini/lib/logger.Logger).",
+	"(*go.uber.org/zap.Logger).",
+	"(*go.uber.org/zap.SugaredLogger).",
+}
+
+// prefixIntrinsic gives no-op models for whole method families (loggers).
+func prefixIntrinsic(name string) intrinsic {
+	for _, p := range nopPrefixes {
+		if strings.HasPrefix(name, p) {
+			return nop
+		}
+	}
+	return nil
+}
+
+var anyType = types.NewInterfaceType(nil, nil)
+
+func (it *Interp) syncMapOp(name string, args []Value, site ssa.Instruction) Value {
+	p := args[0].(*Value)
+	if it.syncMaps == nil {
+		it.syncMaps = map[*Value]*MapObj{}
+	}
+	m := it.syncMaps[p]
+	if m == nil {
+		m = newMap()
+		it.syncMaps[p] = m
+	}
+	switch name {
+	case "Load":
+		if i := it.mapFind(m, anyType, args[1]); i >= 0 {
+			return Tuple{m.vals[i], true}
+		}
+		return Tuple{Iface{}, false}
+	case "Store":
+		it.mapUpdate(m, anyType, args[1], args[2])
+		return nil
+	case "LoadOrStore":
+		if i := it.mapFind(m, anyType, args[1]); i >= 0 {
+			return Tuple{m.vals[i], true}
+		}
+		it.mapUpdate(m, anyType, args[1], args[2])
+		return Tuple{args[2], false}
+	case "LoadAndDelete":
+		if i := it.mapFind(m, anyType, args[1]); i >= 0 {
+			v := m.vals[i]
+			m.remove(i)
+			return Tuple{v, true}
+		}
+		return Tuple{Iface{}, false}
+	case "Delete":
+		it.mapDelete(m, anyType, args[1])
+		return nil
+	case "Swap":
+		if i := it.mapFind(m, anyType, args[1]); i >= 0 {
+			v := m.vals[i]
+			m.vals[i] = args[2]
+			return Tuple{v, true}
+		}
+		it.mapUpdate(m, anyType, args[1], args[2])
+		return Tuple{Iface{}, false}
+	case "Clear":
+		for i := range m.live {
+			m.remove(i)
+		}
+		return nil
+	case "Range":
+		for _, i := range m.liveIdx() {
+			if !m.live[i] {
+				continue
+			}
+			r := it.call(args[1], []Value{m.keys[i], m.vals[i]}, site)
+			if b, ok := r.(bool); ok && !b {
+				break
+			}
+		}
+		return nil
+	}
+	panic(unsupported("sync.Map." + name))
 }
 
 // externalByShape provides models for body-less functions recognised by name patterns.
